@@ -247,17 +247,19 @@ type outcome struct {
 
 // An operation that never returns (e.g. a lock leaked by an earlier refusal) is a violation, not a reason to hang the
 // explorer. The allowance is deliberately far above any legitimate cost, and scales with the work the call has to do:
-// 3 minutes plus 50 ms per traversal round of a forward jump (a real-hash round costs about 4 ms, a symbolic one 2 us),
+// 3 minutes plus, per traversal round of a forward jump, 50 ms in real-hash mode (a round costs about 4 ms) or 200 us in
+// symbolic mode (about 2 us),
 // so that a loaded machine cannot turn a slow legitimate call into an alarm.
 func opAllowance(k *xmss.XMSS, op Op) time.Duration {
 	d := 3 * time.Minute
 	if op.Kind == "setindex" {
-		if cur := k.GetIndex(); op.J > cur {
-			rounds := uint64(op.J - cur)
-			if n := uint64(1) << k.GetHeight(); rounds > n {
-				rounds = n // targets beyond the last leaf are refused at once; no legitimate jump is longer than the tree
+		n := uint64(1) << k.GetHeight()
+		if cur := uint64(k.GetIndex()); uint64(op.J) > cur && uint64(op.J) < n { // targets >= 2^h are refused at once
+			per := 50 * time.Millisecond // real hashes: about 4 ms per round
+			if xmss.VerifSymbolic {
+				per = 200 * time.Microsecond // symbolic: about 2 us per round
 			}
-			d += time.Duration(rounds) * 50 * time.Millisecond
+			d += time.Duration(uint64(op.J)-cur) * per
 		}
 	}
 	return d
